@@ -1,4 +1,300 @@
-//! Engine E-proj: multi-file include projects across directories (C01).
-use crate::util::*;
+//! Engine E-proj (C01, multi-file part): all small include projects across directories, name shapes and
+//! body styles, built by the real `Txtpp::run` and compared with the reference model M.
+#![allow(dead_code)]
 
-pub fn run_into(_rep: &Report) {}
+use crate::ctl::*;
+use crate::model::*;
+use crate::util::*;
+use serde_json::{json, Value};
+use txtpp::{Config, Mode, Verbosity};
+
+const DIRS: [&str; 3] = ["", "sub", "sub/deep"];
+const STYLES: usize = 6;
+
+fn src_name(i: usize) -> String {
+    match i {
+        0 => "f0.txt.txtpp".into(),
+        1 => "f1.txtpp.txt".into(),
+        _ => "f2.txtpp".into(),
+    }
+}
+fn out_name(i: usize) -> String {
+    match i {
+        0 => "f0.txt".into(),
+        1 => "f1.txt".into(),
+        _ => "f2".into(),
+    }
+}
+fn join(d: &str, n: &str) -> String {
+    if d.is_empty() {
+        n.to_string()
+    } else {
+        format!("{d}/{n}")
+    }
+}
+
+/// relative path from directory `from` to file `to` (both base-relative)
+fn rel(from: &str, to: &str) -> String {
+    let f: Vec<&str> = from.split('/').filter(|s| !s.is_empty()).collect();
+    let t: Vec<&str> = to.split('/').collect();
+    let mut k = 0;
+    while k < f.len() && k + 1 < t.len() && f[k] == t[k] {
+        k += 1;
+    }
+    let mut parts: Vec<String> = vec!["..".to_string(); f.len() - k];
+    parts.extend(t[k..].iter().map(|s| s.to_string()));
+    parts.join("/")
+}
+
+#[derive(Clone, Debug)]
+pub struct PSpec {
+    pub n: usize,
+    pub edges: u8, // bit for (0,1), (0,2), (1,2): i includes j
+    pub dirs: Vec<usize>,
+    pub styles: Vec<usize>,
+    pub crlf_mid: bool,
+}
+
+impl PSpec {
+    fn deps(&self, i: usize) -> Vec<usize> {
+        let mut v = vec![];
+        for (b, (a, c)) in [(0usize, 1usize), (0, 2), (1, 2)].iter().enumerate() {
+            if *a == i && *c < self.n && self.edges >> b & 1 == 1 {
+                v.push(*c);
+            }
+        }
+        v
+    }
+    fn path(&self, i: usize) -> String {
+        join(DIRS[self.dirs[i]], &src_name(i))
+    }
+    fn outp(&self, i: usize) -> String {
+        join(DIRS[self.dirs[i]], &out_name(i))
+    }
+    fn body(&self, i: usize) -> String {
+        let d = DIRS[self.dirs[i]];
+        let deps: Vec<String> = self.deps(i).iter().map(|&j| rel(d, &self.outp(j))).collect();
+        let x = format!("F{i}");
+        let mut s = String::new();
+        match self.styles[i] {
+            0 => {
+                s.push_str(&format!("{x}h\n"));
+                for r in &deps {
+                    s.push_str(&format!("TXTPP#include {r}\n"));
+                }
+                s.push_str(&format!("{x}t\n"));
+            }
+            1 => {
+                s.push_str(&format!("{x}h\n"));
+                for r in &deps {
+                    s.push_str(&format!("  // TXTPP#include {r}\n"));
+                }
+                if deps.is_empty() {
+                    s.push_str("  -TXTPP#write w\n  -v\n");
+                }
+            }
+            2 => {
+                for r in &deps {
+                    s.push_str(&format!("TXTPP#after {r}\n-TXTPP#run cat {r}\n"));
+                }
+                s.push_str(&format!("{x}t\n"));
+            }
+            3 => {
+                for r in &deps {
+                    s.push_str(&format!("-TXTPP#tag T\n-TXTPP#include {r}\n[T]\n-TXTPP#include {r}\n"));
+                }
+                s.push_str(&format!("{x}t"));
+            }
+            4 => {
+                s.push_str(&format!("-TXTPP#temp {x}.tmp\n-line1 {x}\n-\nTXTPP#include {x}.tmp\n"));
+                for r in &deps {
+                    s.push_str(&format!("\tTXTPP#include {r}\n"));
+                }
+                s.push_str(&format!("{x}t"));
+            }
+            _ => {
+                s.push_str(&format!("# TXTPP#write {x}a\n# {x}b\n#\n"));
+                for r in &deps {
+                    s.push_str(&format!("TXTPP#include {r}\n-TXTPP#\n- ignored\n"));
+                }
+                s.push_str(&format!(" {x}t \n"));
+            }
+        }
+        if i == 1 && self.crlf_mid {
+            s = s.replace('\n', "\r\n");
+        }
+        s
+    }
+    pub fn tree(&self) -> Tree {
+        let mut t = Tree::new();
+        for d in DIRS {
+            if !d.is_empty() {
+                t.insert(d.to_string(), Node::Dir);
+            }
+        }
+        for i in 0..self.n {
+            tfile(&mut t, &self.path(i), self.body(i));
+        }
+        t
+    }
+    pub fn to_json(&self) -> Value {
+        json!({"n": self.n, "edges": self.edges, "dirs": self.dirs, "styles": self.styles, "crlf_mid": self.crlf_mid})
+    }
+    pub fn from_json(v: &Value) -> PSpec {
+        let arr = |k: &str| v[k].as_array().unwrap().iter().map(|x| x.as_u64().unwrap() as usize).collect::<Vec<_>>();
+        PSpec { n: v["n"].as_u64().unwrap() as usize, edges: v["edges"].as_u64().unwrap() as u8, dirs: arr("dirs"), styles: arr("styles"), crlf_mid: v["crlf_mid"].as_bool().unwrap_or(false) }
+    }
+}
+
+pub fn specs(n_max: usize) -> Vec<PSpec> {
+    let mut v = vec![];
+    for n in 1..=n_max {
+        let nedges = [0, 0, 1, 3][n];
+        for edges in 0..(1u8 << nedges) {
+            // map the low bits onto the edge slots that exist for n files: n=2 -> (0,1); n=3 -> all three
+            let e = edges;
+            for dm in 0..3usize.pow(n as u32) {
+                let dirs: Vec<usize> = (0..n).map(|i| dm / 3usize.pow(i as u32) % 3).collect();
+                for sm in 0..STYLES.pow(n as u32) {
+                    let styles: Vec<usize> = (0..n).map(|i| sm / STYLES.pow(i as u32) % STYLES).collect();
+                    for crlf_mid in [false, true] {
+                        if crlf_mid && n < 2 {
+                            continue;
+                        }
+                        v.push(PSpec { n, edges: e, dirs: dirs.clone(), styles: styles.clone(), crlf_mid });
+                    }
+                }
+            }
+        }
+    }
+    v
+}
+
+fn check_spec(rep: &Report, scratch: &Scratch, sp: &PSpec) {
+    let tree = sp.tree();
+    let mt = MTree::from_tree(&tree);
+    let base = scratch.p("p");
+    for (inputs, recursive, roots) in [(vec![".".to_string()], true, (0..sp.n).collect::<Vec<_>>()), (vec![sp.outp(0)], false, vec![0usize])] {
+        // model
+        let mut m = Model::new(&mt, true, &std_cmd);
+        let mut want: Vec<(usize, Result<MFile, String>)> = vec![];
+        let mut processed = std::collections::BTreeSet::new();
+        let mut stack = roots.clone();
+        while let Some(i) = stack.pop() {
+            if processed.insert(i) {
+                stack.extend(sp.deps(i));
+            }
+        }
+        for &i in &processed {
+            want.push((i, m.eval(&sp.path(i))));
+        }
+        if want.iter().any(|(_, r)| matches!(r, Err(e) if e.starts_with("out-of-domain"))) {
+            rep.add("projects_outside_domain", 1);
+            continue;
+        }
+        let model_ok = want.iter().all(|(_, r)| r.is_ok());
+        for mode in [Mode::Build, Mode::InMemoryBuild] {
+            let _ = std::fs::remove_dir_all(&base);
+            std::fs::create_dir_all(&base).unwrap();
+            write_tree(&base, &tree);
+            let r = run_canonical(Config {
+                base_dir: base.clone(),
+                shell_cmd: String::new(),
+                inputs: inputs.clone(),
+                recursive,
+                num_threads: 6,
+                mode: mode.clone(),
+                verbosity: Verbosity::Quiet,
+                trailing_newline: true,
+            });
+            rep.tv(1);
+            rep.add("project_runs", 1);
+            let desc = format!("project {:?} inputs={:?} mode={:?}", sp.to_json().to_string(), inputs, mode);
+            let rj = json!({"engine": "E-proj", "spec": sp.to_json(), "inputs": inputs, "recursive": recursive, "mode": format!("{:?}", mode)});
+            if !r.clean() {
+                rep.violate("abnormal-end", format!("{desc}: {} {:?}", r.verdict.kind(), r.worker_panics), rj);
+                continue;
+            }
+            if r.verdict.is_ok() != model_ok {
+                rep.violate(
+                    if model_ok { "spurious-error" } else { "missed-error" },
+                    format!("{desc}: implementation {} {}, semantics prescribe {}", r.verdict.kind(), crate::sched::first_lines(&r.verdict.detail(), 4), if model_ok { "success" } else { "an error" }),
+                    rj,
+                );
+                continue;
+            }
+            if !model_ok {
+                continue;
+            }
+            let after = snapshot(&base);
+            let mut expected_new: std::collections::BTreeSet<String> = Default::default();
+            for (i, w) in &want {
+                let mf = w.as_ref().unwrap();
+                let o = sp.outp(*i);
+                expected_new.insert(o.clone());
+                let got = match after.get(&o) {
+                    Some(Meta { node: Node::File(b), .. }) => Some(b.clone()),
+                    _ => None,
+                };
+                if got.as_ref().map(|g| mf.outs.iter().any(|x| x == g)) != Some(true) {
+                    rep.violate(
+                        "output-differs",
+                        format!("{desc}: {o} is {:?}, semantics prescribe {:?} (source {:?})", got.as_ref().map(|b| show(b)), mf.outs.iter().map(|x| show(x)).collect::<Vec<_>>(), sp.body(*i)),
+                        rj.clone(),
+                    );
+                }
+                for (tp, tb) in &mf.temps {
+                    expected_new.insert(tp.clone());
+                    if after.get(tp).map(|m| &m.node) != Some(&Node::File(tb.clone())) {
+                        rep.violate("temp-differs", format!("{desc}: temp target {tp} differs from {:?}", show(tb)), rj.clone());
+                    }
+                }
+            }
+            for k in after.keys() {
+                if !tree.contains_key(k) && after[k].node != Node::Dir && !expected_new.contains(k) {
+                    rep.violate("stray-file", format!("{desc}: unexpected file {k}"), rj.clone());
+                }
+            }
+        }
+    }
+}
+
+pub fn run_into(rep: &Report) {
+    let n_max = if rep.thorough() { 3 } else { 2 };
+    let sp = specs(n_max);
+    rep.set("multi_file_projects", json!(sp.len()));
+    rep.set("multi_file_bounds", json!(format!("all include DAGs on <= {n_max} files x each file in ., sub/, sub/deep/ x 6 body styles x three source-name shapes x CRLF in the middle file; inputs = directory (recursive) and the root by output name; Build and InMemoryBuild")));
+    sharded_dyn(rep, par_threads(), |_k, _n, next, rep| {
+        let scratch = Scratch::new();
+        loop {
+            let i = next();
+            if i >= sp.len() {
+                break;
+            }
+            if rep.over_cap() {
+                rep.note_cap("wall-clock cap in the multi-file projects");
+                break;
+            }
+            check_spec(rep, &scratch, &sp[i]);
+            if i == 777 || (sp.len() < 777 && i == 100) {
+                rep.sample(json!({"multi_file_project": sp[i].tree().iter().filter_map(|(k, v)| match v { Node::File(b) => Some((k.clone(), show(b))), _ => None }).collect::<std::collections::BTreeMap<_, _>>()}));
+            }
+        }
+    });
+}
+
+pub fn replay(v: &Value) -> bool {
+    let rep = Report::new("C01", "quick");
+    let sp = PSpec::from_json(&v["spec"]);
+    let scratch = Scratch::new();
+    for (k, n) in sp.tree() {
+        if let Node::File(b) = n {
+            println!("  {k}: {:?}", show(&b));
+        }
+    }
+    check_spec(&rep, &scratch, &sp);
+    for x in rep.violations.lock().unwrap().iter() {
+        println!("  [{}] {}", x.signature, x.message);
+    }
+    rep.n_violations() > 0
+}
